@@ -167,19 +167,30 @@ Proof.
   intros H s Hs. unfold reg_addr. destruct (base + off <? 2 ^ 64) eqn:E; [|lia]. exists (Ok (base + off)), s. auto.
 Qed.
 
+Variables (sbrm ucap : Z).
+
+(* what the handle may have cached *)
+Definition cache_ok (c : ctl) : Prop :=
+  (c_sirm c = None \/ c_sirm c = Some sirm) /\ (c_sbrm c = None \/ c_sbrm c = Some (sbrm, ucap)).
+
 (* good conforming state (proofs/P_C14b.v: opened, 12 < max_ack < 2^32, request id u16, ABRM cached,
    separated segments inside the address space, 24 <= max_cmd, retry >= 1, every transaction plan
    conforming) whose device memory is segs *)
-Definition atg (segs : list (Z * list Z)) (s : st) : Prop := good_conf s /\ w_segs (snd s) = segs.
+Definition atg (segs : list (Z * list Z)) (s : st) : Prop :=
+  good_conf s /\ w_segs (snd s) = segs /\ cache_ok (fst s).
 
 Lemma rt_read segs a n d : mem_read segs a n = Some d ->
   runs_to (atg segs) (read_reg a n) (fun r s => r = Ok (of_le d) /\ atg segs s).
 Proof.
-  intros Hm s [G S]. destruct conforming_reads_conf as [[_ [_ H3]] H4].
-  destruct (H4 a n s d G) as [s' E]; [rewrite S; exact Hm|].
-  destruct (H3 a n s (Ok d) s' G E) as [G' [S' _]].
-  exists (Ok (of_le d)), s'. split; [unfold read_reg, bindM; rewrite E; reflexivity|].
-  split; [reflexivity|]. split; [exact G'|congruence].
+  intros Hm [c w] [G [S Hc]]. destruct conforming_reads_conf as [[_ [_ H3]] H4].
+  destruct (H4 a n (c, w) d G) as [[c' w'] E]; [rewrite S; exact Hm|].
+  destruct (H3 a n (c, w) (Ok d) (c', w') G E) as [G' [S' _]].
+  pose proof G as [Gh _].
+  destruct (ctl_read_honest a n c w (Ok d) c' w' Gh E) as (_ & _ & _ & _ & Hcfg & _).
+  destruct Hcfg as (_ & _ & _ & _ & _ & C6 & C7 & _).
+  exists (Ok (of_le d)), (c', w'). split; [unfold read_reg, bindM; rewrite E; reflexivity|].
+  split; [reflexivity|]. split; [exact G'|]. split; [congruence|].
+  unfold cache_ok in *. cbn [fst] in *. rewrite C6, C7. exact Hc.
 Qed.
 
 Lemma rt_field segs a (n : nat) v : u_field segs a n v ->
@@ -192,17 +203,18 @@ Qed.
 Lemma rt_write mi off v : same_out mi -> 0 <= off -> off + 4 <= 48 ->
   runs_to (atg (blk mi)) (write_reg (sirm + off) 4 v) (fun r s => r = Ok tt /\ atg (blk (put off v mi)) s).
 Proof.
-  intros Hso H0 H1 [c w] [G S]. cbn [snd] in S.
+  intros Hso H0 H1 [c w] [G [S Hcache]]. cbn [snd] in S.
   destruct G as ((Ho & Hma & Hid & Hab & Hw & Hsep) & Hmc & HR & Hc).
   assert (Z4 : zlen (le_bytes 4 v) = 4) by apply zlen_le_bytes.
   destruct (ctl_write_exact c w (sirm + off) (le_bytes 4 v) pre b mi post Ho ltac:(lia) Hid HR Hc (le_bytes_ok 4 v))
     as (c' & w' & Hrun & Hsegs & _ & Hc' & Hst & _).
   { rewrite S, Z4. apply range_blk; assumption. } { lia. } { rewrite Z4. lia. }
-  destruct Hst as (S1 & S2 & S3 & S4 & S5 & _ & S7 & _).
+  destruct Hst as (S1 & S2 & S3 & S4 & S5 & _ & S7 & S8 & S9).
   exists (Ok tt), (c', w'). split; [exact Hrun|]. split; [reflexivity|].
   assert (Eseg : w_segs w' = blk (put off v mi)).
   { rewrite Hsegs. unfold blk, put. replace (sirm + off - b) with (sirm - b + off) by lia. reflexivity. }
-  split; [|exact Eseg]. unfold good_conf, good_honest.
+  split; [|split; [exact Eseg|unfold cache_ok in *; cbn [fst] in *; rewrite S8, S9; exact Hcache]].
+  unfold good_conf, good_honest.
   rewrite S1, S3, S4, S5, S7, S2. repeat split; try assumption; try apply wrapu16_range; try lia.
   - eapply conf_whonest. exact Hc'.
   - rewrite Eseg. rewrite S in Hsep. unfold blk in *. eapply segs_sep_gen; [|exact Hsep].
@@ -234,7 +246,7 @@ Qed.
 (* bootstrap registers: SBRM address (ABRM 0x1D8), U3V capability (SBRM+4, bit 0 = SIRM available),
    SIRM address (SBRM+0x20); for from_control also the device capability (ABRM 0x1C4) and the maximum
    device response time (ABRM 0x1CC).  None of them overlaps the SIRM block. *)
-Variables (sbrm ucap devcap resp : Z).
+Variables (devcap resp : Z).
 Hypothesis Hb472 : u_field (blk m) 472 8 sbrm.
 Hypothesis Hsb4 : sbrm + 4 < 2 ^ 64.
 Hypothesis Hbcap : u_field (blk m) (sbrm + 4) 8 ucap.
@@ -248,10 +260,6 @@ Hypothesis A452 : 452 + 8 <= sirm \/ sirm + 48 <= 452.
 Hypothesis A460 : 460 + 4 <= sirm \/ sirm + 48 <= 460.
 Hypothesis Acap : sbrm + 4 + 8 <= sirm \/ sirm + 48 <= sbrm + 4.
 Hypothesis Asirm : sbrm + 32 + 8 <= sirm \/ sirm + 48 <= sbrm + 32.
-
-(* what the handle may have cached *)
-Definition cache_ok (c : ctl) : Prop :=
-  (c_sirm c = None \/ c_sirm c = Some sirm) /\ (c_sbrm c = None \/ c_sbrm c = Some (sbrm, ucap)).
 
 Lemma field_frame mi a (n : nat) v : same_out mi -> (a + Z.of_nat n <= sirm \/ sirm + 48 <= a) ->
   u_field (blk m) a n v -> u_field (blk mi) a n v.
@@ -276,12 +284,12 @@ Proof.
   apply rt_ret.
 Qed.
 
-Lemma rt_upd_cache (P : st -> Prop) f :
-  (forall c w, good_conf (c, w) -> good_conf (f c, w)) -> forall segs,
+Lemma rt_upd_cache f :
+  (forall c w, good_conf (c, w) -> good_conf (f c, w)) -> (forall c, cache_ok c -> cache_ok (f c)) -> forall segs,
   runs_to (atg segs) (upd_ctl f) (fun r s => r = Ok tt /\ atg segs s).
 Proof.
-  intros Hf segs [c w] [G S]. exists (Ok tt), (f c, w). split; [reflexivity|]. split; [reflexivity|].
-  split; [apply Hf; exact G|exact S].
+  intros Hf Hg segs [c w] [G [S Hc]]. exists (Ok tt), (f c, w). split; [reflexivity|]. split; [reflexivity|].
+  split; [apply Hf; exact G|]. split; [exact S|apply Hg; exact Hc].
 Qed.
 
 Lemma rt_bind_any {A B} (P : st -> Prop) (mm : M A) (Q : st -> Prop) (f : A -> M B) R :
@@ -300,10 +308,10 @@ Proof.
   exists (Ok cap), (c1, w1). split; [reflexivity|]. split; [exists cap; reflexivity|split; assumption].
 Qed.
 
-Lemma rt_h_sbrm : runs_to (fun s => atg (blk m) s /\ cache_ok (fst s)) h_sbrm
-                          (fun r s => r = Ok (sbrm, ucap) /\ atg (blk m) s).
+Lemma rt_h_sbrm : runs_to (atg (blk m)) h_sbrm (fun r s => r = Ok (sbrm, ucap) /\ atg (blk m) s).
 Proof.
-  intros [c w] [Hat [_ Hc]]. cbn [fst] in Hc. unfold h_sbrm. unfold bindM at 1, get_ctl. cbn [fst].
+  intros [c w] Hat. pose proof Hat as [_ [_ [_ Hc]]]. cbn [fst] in Hc.
+  unfold h_sbrm. unfold bindM at 1, get_ctl. cbn [fst].
   destruct Hc as [E|E]; rewrite E.
   - assert (RT : runs_to (atg (blk m))
        (do _ <- h_abrm; do s <- abrm_sbrm;
@@ -313,19 +321,18 @@ Proof.
         ret s) (fun r s => r = Ok (sbrm, ucap) /\ atg (blk m) s)).
     { eapply rt_bind_any; [apply rt_h_abrm|]. intros _.
       eapply rt_bind; [apply rt_abrm_sbrm; apply same_out_refl|].
-      eapply rt_bind; [apply (rt_upd_cache (fun _ => True)); intros c0 w0 G0; exact G0|].
-      apply rt_ret. }
+      eapply rt_bind; [apply rt_upd_cache; [intros c0 w0 G0; exact G0|]|apply rt_ret].
+      intros c0 [H1 _]. split; [exact H1|right; reflexivity]. }
     apply RT. exact Hat.
   - exists (Ok (sbrm, ucap)), (c, w). split; [reflexivity|]. split; [reflexivity|exact Hat].
 Qed.
 
-Lemma rt_h_sirm : runs_to (fun s => atg (blk m) s /\ cache_ok (fst s)) h_sirm
-                          (fun r s => r = Ok sirm /\ atg (blk m) s).
+Lemma rt_h_sirm : runs_to (atg (blk m)) h_sirm (fun r s => r = Ok sirm /\ atg (blk m) s).
 Proof.
-  intros [c w] [Hat Hc]. pose proof Hc as [Hc1 _]. cbn [fst] in Hc1.
+  intros [c w] Hat. pose proof Hat as [_ [_ [Hc1 _]]]. cbn [fst] in Hc1.
   unfold h_sirm. unfold bindM at 1, get_ctl. cbn [fst].
   destruct Hc1 as [E|E]; rewrite E.
-  - assert (RT : runs_to (fun s => atg (blk m) s /\ cache_ok (fst s))
+  - assert (RT : runs_to (atg (blk m))
        (do s <- h_sbrm; do oa <- sbrm_sirm_address s;
         match oa with
         | None => fail CE_INVALID_DEVICE
@@ -337,9 +344,9 @@ Proof.
         end) (fun r s => r = Ok sirm /\ atg (blk m) s)).
     { eapply rt_bind; [apply rt_h_sbrm|].
       eapply rt_bind; [apply rt_sirm_address; apply same_out_refl|]. cbv beta iota.
-      eapply rt_bind; [apply (rt_upd_cache (fun _ => True)); intros c0 w0 G0; exact G0|].
-      apply rt_ret. }
-    apply RT. split; assumption.
+      eapply rt_bind; [apply rt_upd_cache; [intros c0 w0 G0; exact G0|]|apply rt_ret].
+      intros c0 [_ H2]. split; [right; reflexivity|exact H2]. }
+    apply RT. exact Hat.
   - exists (Ok sirm), (c, w). split; [reflexivity|]. split; [reflexivity|exact Hat].
 Qed.
 
@@ -382,13 +389,13 @@ Lemma rt_fail {A} (P : st -> Prop) e (R : outcome A -> st -> Prop) : (forall s, 
 Proof. intros H s Hs. exists (Err e), s. split; [reflexivity|auto]. Qed.
 
 Definition enable_post (r : outcome unit) (s : st) : Prop :=
-  (r = Err CE_INVALID_DEVICE /\ ~ (kexp < 32 /\ programmable (2 ^ kexp) rl rp rt)) \/
+  (r = Err CE_INVALID_DEVICE /\ ~ (kexp < 32 /\ programmable (2 ^ kexp) rl rp rt) /\ atg (blk m1) s) \/
   (r = Ok tt /\ kexp < 32 /\ programmable (2 ^ kexp) rl rp rt /\ atg (blk m_final) s).
 
 Lemma info_range : 0 <= kexp.
 Proof. destruct Hinfo as [[H _] _]. unfold kexp. apply Z.div_pos; lia. Qed.
 
-Theorem enable_run : runs_to (fun s => atg (blk m) s /\ cache_ok (fst s)) enable_alt enable_post.
+Theorem enable_run : runs_to (atg (blk m)) enable_alt enable_post.
 Proof.
   pose proof same_out_m1 as Hs1. pose proof info_range as Hk0.
   unfold enable_alt. eapply rt_bind; [apply rt_h_sirm|]. unfold sirm_reg.
@@ -400,7 +407,7 @@ Proof.
   eapply rt_bind; [apply (rt_field _ (sirm + 0) 4 info);
                    apply field_blk; [exact Hs1|apply get_m1; lia|lia|lia|lia|exact Hinfo]|].
   cbv zeta. fold kexp. destruct (32 <=? kexp) eqn:E32.
-  { apply rt_fail. intros s _. left. split; [reflexivity|]. intros [H _]. lia. }
+  { apply rt_fail. intros s Hs. left. split; [reflexivity|]. split; [intros [H _]; lia|exact Hs]. }
   eapply rt_bind; [apply rt_reg_addr; lia|].
   eapply rt_bind; [apply (rt_field _ (sirm + 16) 4 rl);
                    apply field_blk; [exact Hs1|apply get_m1; lia|lia|lia|lia|exact Hrl]|].
@@ -417,7 +424,8 @@ Proof.
     unfold bindM; rewrite E.
   - destruct (rt_write_seq (plan_regs the_plan) (plan_regs_ok _) m1 Hs1 s Hs) as (r & s' & E2 & -> & Hat).
     exists (Ok tt), s'. split; [exact E2|]. right. split; [reflexivity|]. split; [lia|]. split; [exact Pr|exact Hat].
-  - exists (Err CE_INVALID_DEVICE), s. split; [reflexivity|]. left. split; [reflexivity|]. intros [_ H]. contradiction.
+  - exists (Err CE_INVALID_DEVICE), s. split; [reflexivity|]. left. split; [reflexivity|].
+    split; [intros [_ H]; contradiction|exact Hs].
 Qed.
 
 (* ---- the registers after a successful run ------------------------------------------------------------------ *)
@@ -476,6 +484,33 @@ Proof.
   apply rt_ret.
 Qed.
 
+(* from_control on any memory that differs from m inside the block only *)
+Lemma params_run_gen mi v1 v2 v3 v4 v5 v6 : same_out mi ->
+  u_field (blk mi) (sirm + 24) 4 v1 -> u_field (blk mi) (sirm + 44) 4 v2 -> u_field (blk mi) (sirm + 28) 4 v3 ->
+  u_field (blk mi) (sirm + 32) 4 v4 -> u_field (blk mi) (sirm + 36) 4 v5 -> u_field (blk mi) (sirm + 40) 4 v6 ->
+  runs_to (atg (blk mi)) stream_params (fun r s => r = Ok [v1; v2; v3; v4; v5; v6] /\ atg (blk mi) s).
+Proof.
+  intros Hsf F1 F2 F3 F4 F5 F6. unfold stream_params.
+  eapply rt_bind; [apply (rt_field _ 452 8 devcap); apply field_frame; auto|].
+  eapply rt_bind; [apply rt_abrm_sbrm; exact Hsf|].
+  eapply rt_bind; [apply rt_sirm_address; exact Hsf|]. cbv beta iota. unfold sirm_reg.
+  eapply rt_bind; [apply rt_reg_addr; lia|]. eapply rt_bind; [apply (rt_field _ (sirm + 24) 4 v1 F1)|].
+  eapply rt_bind; [apply rt_reg_addr; lia|]. eapply rt_bind; [apply (rt_field _ (sirm + 44) 4 v2 F2)|].
+  eapply rt_bind; [apply rt_reg_addr; lia|]. eapply rt_bind; [apply (rt_field _ (sirm + 28) 4 v3 F3)|].
+  eapply rt_bind; [apply rt_reg_addr; lia|]. eapply rt_bind; [apply (rt_field _ (sirm + 32) 4 v4 F4)|].
+  eapply rt_bind; [apply rt_reg_addr; lia|]. eapply rt_bind; [apply (rt_field _ (sirm + 36) 4 v5 F5)|].
+  eapply rt_bind; [apply rt_reg_addr; lia|]. eapply rt_bind; [apply (rt_field _ (sirm + 40) 4 v6 F6)|].
+  eapply rt_bind; [apply (rt_field _ 460 4 resp); apply field_frame; auto|].
+  apply rt_ret.
+Qed.
+
+(* disable_streaming *)
+Lemma disable_run : runs_to (atg (blk m)) ctl_disable_streaming (fun r s => r = Ok tt /\ atg (blk (put 4 0 m)) s).
+Proof.
+  unfold ctl_disable_streaming. eapply rt_bind; [apply rt_h_sirm|]. unfold sirm_reg.
+  eapply rt_bind; [apply rt_reg_addr; lia|]. apply rt_write; [apply same_out_refl|lia|lia].
+Qed.
+
 (* C15_params_readback *)
 Theorem params_readback c w c' w' : good_conf (c, w) -> w_segs w = blk m -> cache_ok c ->
   ctl_enable_streaming (c, w) = (Ok tt, (c', w')) ->
@@ -490,9 +525,9 @@ Theorem params_readback c w c' w' : good_conf (c, w) -> w_segs w = blk m -> cach
                    sp_final1 the_plan; sp_final2 the_plan], s'').
 Proof.
   intros G S Hc H. rewrite enable_as_seq in H.
-  destruct (enable_run (c, w) (conj (conj G S) Hc)) as (r & s' & E & [[-> _]|[-> [Hk [Pr Hat]]]]);
+  destruct (enable_run (c, w) (conj G (conj S Hc))) as (r & s' & E & [[-> _]|[-> [Hk [Pr Hat]]]]);
     rewrite E in H; [discriminate H|].
-  apply pair_inj in H as [_ ->]. pose proof Hat as [G' S']. cbn [snd] in S'.
+  apply pair_inj in H as [_ ->]. pose proof Hat as [G' [S' _]]. cbn [snd] in S'.
   pose proof info_range as Hk0.
   assert (Hp : 0 <= rp < 2 ^ 64) by (destruct Hrp as [X _]; rewrite pow256_8 in X; exact X).
   split; [exact Hk|]. split; [exact Pr|]. split.
